@@ -92,7 +92,7 @@ Op gen_hmac(Ctx &c, GHmac &g, int obj, bool erase_bias) {
     Op o;
     if (x < 8) {
         o = mk(M_ONESHOT, obj);
-        o.a = hmac_keylen(r); o.b = r.chance(1, 3) ? hash_update_len(r, 64) : small_len(r); o.c = r.below(64); o.dseed = ds(r);
+        o.a = hmac_keylen(r); o.b = r.chance(1, 3) ? hash_update_len(r, 64) : small_len(r); o.c = r.below(512); o.dseed = ds(r);
         if (o.a == 0 && r.chance(1, 2)) o.flags |= F_NULLPTR;
         if (r.chance(1, 5)) o.flags |= F_INPLACE;
         return o;
@@ -121,6 +121,7 @@ Op gen_hmac(Ctx &c, GHmac &g, int obj, bool erase_bias) {
             o.a = y == 0 ? g.lastkey / 2 : y == 1 ? (g.lastkey ? g.lastkey - 1 : 0) : y == 2 ? g.lastkey + 1 + r.below(40) : 0;
         }
         g.lastkey = o.a; g.lastseed = o.dseed;
+        o.b = r.below(8);   // alignment of the key inside the caller's key buffer
         if (o.a == 0 && r.chance(1, 2)) o.flags |= F_NULLPTR;
         g.st = ST_LIVE; g.len = 64; break;
     case M_UPDATE:
@@ -195,7 +196,7 @@ Op gen_hkdf(Ctx &c, GHkdf &g, int obj, bool erase_bias) {
             else len = 100 + r.below(400);
         }
         if (r.chance(1, 150)) { static const size_t HUGE[] = {65535, 65536, 65537, 65636, 70000, 73696, 131072, 1000000}; len = HUGE[r.below(8)]; }   // 16-bit corners of the request length
-        o.a = len; o.b = r.below(64);
+        o.a = len; o.b = r.below(256);
         g.cur = std::min<size_t>(8160, g.cur + len);
         break;
     }
@@ -366,6 +367,7 @@ Op gen_clean(Ctx &c) {
     else if (y < 94) o.b = r.below(301);
     else { static const size_t BS[] = {511, 512, 513, 1023, 1024, 1025, 4095, 4096, 4097, 8000}; o.b = r.chance(1, 2) ? BS[r.below(10)] : 301 + r.below(7800); }
     o.dseed = ds(r);
+    o.d = r.below(2);   // dirty upper half of the size register
     if (r.chance(1, 7)) { o.flags |= F_BOUNDARY; o.c = r.below(5); o.a = r.below(3); if (o.b > 4000) o.b = 4000; }
     return o;
 }
@@ -422,8 +424,8 @@ int pick_tasks(Rng &r, bool heavy) {
 } // namespace
 
 // C18 baseline: all transient prefixes of length <= 5 over {EINTR, EAGAIN} x 7 terminals
-static const uint32_t TRNG_LONG_N[] = {7, 8, 9, 15, 16, 17, 31, 32, 33, 63, 64, 65, 100, 127, 128, 129, 255, 256, 257, 1000, 4096};
-static const int TRNG_LONG = 21 * 2 * 2; // run length x {EINTR, EAGAIN} x {success, EIO}
+static const uint32_t TRNG_LONG_N[] = {7, 8, 9, 15, 16, 17, 31, 32, 33, 63, 64, 65, 100, 127, 128, 129, 255, 256, 257, 1000, 4096, 20000, 100000};
+static const int TRNG_LONG = 23 * 2 * 2; // run length x {EINTR, EAGAIN} x {success, EIO}
 static const int TRNG_ERRNOS = 131 * 2;  // every errno 1..133 except EINTR/EAGAIN as the permanent error, alone and after "EAGAIN EINTR"
 static const int TRNG_BASELINE = 63 * 7 + TRNG_LONG + TRNG_ERRNOS;
 // C16 baseline: all sequences over a 10-letter alphabet
